@@ -24,7 +24,9 @@ Open Scope Z_scope.
 
 Inductive sd_kind := SdData | SdSack | SdShutdown | SdShutdownAck | SdShutdownComplete | SdInit.
 
-Inductive sd_retv := SdNotCalled | SdWaiting | SdRetNil | SdRetErr.
+(* result of the user's Shutdown call: not called / blocked / nil / refused at once (ErrShutdownNonEstablished) /
+   ErrShutdownIncomplete (the association closed before the shutdown sequence reached its end) *)
+Inductive sd_retv := SdNotCalled | SdWaiting | SdRetNil | SdRetErr | SdRetIncomplete.
 
 Record sd_ep := mkSdEp {
   sd_state : Z;      (* association state (Gen.c_established ...) *)
@@ -32,6 +34,7 @@ Record sd_ep := mkSdEp {
   sd_wsa : bool;     (* willSendShutdownAck *)
   sd_wsc : bool;     (* willSendShutdownComplete *)
   sd_scp : bool;     (* shutdownCompletePending *)
+  sd_done : bool;    (* shutdownCompleted: SHUTDOWN ACK seen in SHUTDOWN-SENT / -ACK-SENT, or SHUTDOWN COMPLETE in -ACK-SENT *)
   sd_t2 : bool;      (* t2Shutdown.isRunning() *)
   sd_pend : Z;       (* pendingQueue.size() *)
   sd_infl : Z;       (* inflightQueue.size() *)
@@ -45,37 +48,40 @@ Definition sd_ackImmediate : Z := 1.
 Definition sd_ackDelay : Z := 2.
 
 Definition sd_set_state (e : sd_ep) (v : Z) : sd_ep :=
-  mkSdEp v (sd_wsd e) (sd_wsa e) (sd_wsc e) (sd_scp e) (sd_t2 e) (sd_pend e) (sd_infl e) (sd_ack e) (sd_ret e) (sd_down e).
+  mkSdEp v (sd_wsd e) (sd_wsa e) (sd_wsc e) (sd_scp e) (sd_done e) (sd_t2 e) (sd_pend e) (sd_infl e) (sd_ack e) (sd_ret e) (sd_down e).
 Definition sd_set_wsd (e : sd_ep) (v : bool) : sd_ep :=
-  mkSdEp (sd_state e) v (sd_wsa e) (sd_wsc e) (sd_scp e) (sd_t2 e) (sd_pend e) (sd_infl e) (sd_ack e) (sd_ret e) (sd_down e).
+  mkSdEp (sd_state e) v (sd_wsa e) (sd_wsc e) (sd_scp e) (sd_done e) (sd_t2 e) (sd_pend e) (sd_infl e) (sd_ack e) (sd_ret e) (sd_down e).
 Definition sd_set_wsa (e : sd_ep) (v : bool) : sd_ep :=
-  mkSdEp (sd_state e) (sd_wsd e) v (sd_wsc e) (sd_scp e) (sd_t2 e) (sd_pend e) (sd_infl e) (sd_ack e) (sd_ret e) (sd_down e).
+  mkSdEp (sd_state e) (sd_wsd e) v (sd_wsc e) (sd_scp e) (sd_done e) (sd_t2 e) (sd_pend e) (sd_infl e) (sd_ack e) (sd_ret e) (sd_down e).
 Definition sd_set_wsc (e : sd_ep) (v : bool) : sd_ep :=
-  mkSdEp (sd_state e) (sd_wsd e) (sd_wsa e) v (sd_scp e) (sd_t2 e) (sd_pend e) (sd_infl e) (sd_ack e) (sd_ret e) (sd_down e).
+  mkSdEp (sd_state e) (sd_wsd e) (sd_wsa e) v (sd_scp e) (sd_done e) (sd_t2 e) (sd_pend e) (sd_infl e) (sd_ack e) (sd_ret e) (sd_down e).
 Definition sd_set_scp (e : sd_ep) (v : bool) : sd_ep :=
-  mkSdEp (sd_state e) (sd_wsd e) (sd_wsa e) (sd_wsc e) v (sd_t2 e) (sd_pend e) (sd_infl e) (sd_ack e) (sd_ret e) (sd_down e).
+  mkSdEp (sd_state e) (sd_wsd e) (sd_wsa e) (sd_wsc e) v (sd_done e) (sd_t2 e) (sd_pend e) (sd_infl e) (sd_ack e) (sd_ret e) (sd_down e).
+Definition sd_set_done (e : sd_ep) (v : bool) : sd_ep :=
+  mkSdEp (sd_state e) (sd_wsd e) (sd_wsa e) (sd_wsc e) (sd_scp e) v (sd_t2 e) (sd_pend e) (sd_infl e) (sd_ack e) (sd_ret e) (sd_down e).
 Definition sd_set_t2 (e : sd_ep) (v : bool) : sd_ep :=
-  mkSdEp (sd_state e) (sd_wsd e) (sd_wsa e) (sd_wsc e) (sd_scp e) v (sd_pend e) (sd_infl e) (sd_ack e) (sd_ret e) (sd_down e).
+  mkSdEp (sd_state e) (sd_wsd e) (sd_wsa e) (sd_wsc e) (sd_scp e) (sd_done e) v (sd_pend e) (sd_infl e) (sd_ack e) (sd_ret e) (sd_down e).
 Definition sd_set_pend (e : sd_ep) (v : Z) : sd_ep :=
-  mkSdEp (sd_state e) (sd_wsd e) (sd_wsa e) (sd_wsc e) (sd_scp e) (sd_t2 e) v (sd_infl e) (sd_ack e) (sd_ret e) (sd_down e).
+  mkSdEp (sd_state e) (sd_wsd e) (sd_wsa e) (sd_wsc e) (sd_scp e) (sd_done e) (sd_t2 e) v (sd_infl e) (sd_ack e) (sd_ret e) (sd_down e).
 Definition sd_set_infl (e : sd_ep) (v : Z) : sd_ep :=
-  mkSdEp (sd_state e) (sd_wsd e) (sd_wsa e) (sd_wsc e) (sd_scp e) (sd_t2 e) (sd_pend e) v (sd_ack e) (sd_ret e) (sd_down e).
+  mkSdEp (sd_state e) (sd_wsd e) (sd_wsa e) (sd_wsc e) (sd_scp e) (sd_done e) (sd_t2 e) (sd_pend e) v (sd_ack e) (sd_ret e) (sd_down e).
 Definition sd_set_ack (e : sd_ep) (v : Z) : sd_ep :=
-  mkSdEp (sd_state e) (sd_wsd e) (sd_wsa e) (sd_wsc e) (sd_scp e) (sd_t2 e) (sd_pend e) (sd_infl e) v (sd_ret e) (sd_down e).
+  mkSdEp (sd_state e) (sd_wsd e) (sd_wsa e) (sd_wsc e) (sd_scp e) (sd_done e) (sd_t2 e) (sd_pend e) (sd_infl e) v (sd_ret e) (sd_down e).
 Definition sd_set_ret (e : sd_ep) (v : sd_retv) : sd_ep :=
-  mkSdEp (sd_state e) (sd_wsd e) (sd_wsa e) (sd_wsc e) (sd_scp e) (sd_t2 e) (sd_pend e) (sd_infl e) (sd_ack e) v (sd_down e).
+  mkSdEp (sd_state e) (sd_wsd e) (sd_wsa e) (sd_wsc e) (sd_scp e) (sd_done e) (sd_t2 e) (sd_pend e) (sd_infl e) (sd_ack e) v (sd_down e).
 Definition sd_set_down (e : sd_ep) (v : bool) : sd_ep :=
-  mkSdEp (sd_state e) (sd_wsd e) (sd_wsa e) (sd_wsc e) (sd_scp e) (sd_t2 e) (sd_pend e) (sd_infl e) (sd_ack e) (sd_ret e) v.
+  mkSdEp (sd_state e) (sd_wsd e) (sd_wsa e) (sd_wsc e) (sd_scp e) (sd_done e) (sd_t2 e) (sd_pend e) (sd_infl e) (sd_ack e) (sd_ret e) v.
 
 (* hasPendingOrInflightData *)
 Definition sd_has_data (e : sd_ep) : bool := (0 <? sd_pend e) || (0 <? sd_infl e).
 
-(* close() and the deferred part of readLoop: state closed, timers closed, closeWriteLoopCh closed — the select in
-   Shutdown returns nil through that channel whatever closed it *)
+(* close() and the deferred part of readLoop: state closed, timers closed, closeWriteLoopCh closed.  Whatever closed
+   the channel wakes the select in Shutdown, which (since fix 568b58f) returns nil only if shutdownCompleted is set and
+   ErrShutdownIncomplete otherwise *)
 Definition sd_close (e : sd_ep) : sd_ep :=
   let e1 := sd_set_down (sd_set_t2 (sd_set_state e c_closed) false) true in
   match sd_ret e with
-  | SdWaiting => sd_set_ret e1 SdRetNil
+  | SdWaiting => sd_set_ret e1 (if sd_done e then SdRetNil else SdRetIncomplete)
   | _ => e1
   end.
 
@@ -138,12 +144,12 @@ Definition sd_recv_shutdown (e : sd_ep) (r : sd_ackres) : sd_ep :=
 (* handleShutdownAck *)
 Definition sd_recv_shutdown_ack (e : sd_ep) : sd_ep :=
   if (sd_state e =? c_shutdownSent) || (sd_state e =? c_shutdownAckSent) then
-    sd_set_wsc (sd_set_scp (sd_set_wsa (sd_set_wsd (sd_set_t2 e false) false) false) true) true
+    sd_set_done (sd_set_wsc (sd_set_scp (sd_set_wsa (sd_set_wsd (sd_set_t2 e false) false) false) true) true) true
   else e.
 
 (* handleShutdownComplete *)
 Definition sd_recv_shutdown_complete (e : sd_ep) : sd_ep :=
-  if sd_state e =? c_shutdownAckSent then sd_close e else e.
+  if sd_state e =? c_shutdownAckSent then sd_close (sd_set_done e true) else e.
 
 (* handleInit: only the SHUTDOWN-ACK-SENT branch (matching ports) touches the projection; in the other states of
    an established association the INIT is refused with an error that handleChunk swallows *)
@@ -257,13 +263,16 @@ Inductive sd_event :=
 | SdEvT2
 | SdEvAckTimer
 | SdEvRtx                (* T3 / RACK / PTO expiry: marks chunks, wakes the write loop *)
-| SdEvTransportDown.     (* netConn.Read fails: readLoop exits *)
+| SdEvTransportDown      (* netConn.Read fails: readLoop exits *)
+| SdEvRecvAbort          (* ABORT from the peer: handleAbort closes, readLoop exits *)
+| SdEvCloseCall.         (* the user calls Close (or Abort) while Shutdown may be blocked *)
 
 (* the handler part; bool = the API call was accepted (true for non-API events) *)
 Definition sd_handle (e : sd_ep) (ev : sd_event) : sd_ep * bool :=
   match ev with
   | SdEvShutdownCall => sd_api_shutdown e
   | SdEvWrite n => sd_write_attempt e n
+  | SdEvCloseCall => (sd_close e, true)
   | _ =>
     if sd_down e then (e, true)
     else
@@ -277,6 +286,7 @@ Definition sd_handle (e : sd_ep) (ev : sd_event) : sd_ep * bool :=
        | SdEvT2 => sd_t2_expire e
        | SdEvAckTimer => sd_ack_timeout e
        | SdEvTransportDown => sd_close e
+       | SdEvRecvAbort => sd_close e
        | _ => e
        end, true)
   end.
@@ -358,11 +368,12 @@ Record sd_cfg := mkSdCfg {
   sd_cfg_call_a : bool;   (* the user of A may call Shutdown *)
   sd_cfg_call_b : bool;
   sd_cfg_cap : Z;         (* at most this many messages queued per side (bound of the finite exploration) *)
-  sd_cfg_fail : bool      (* the transport may fail at any time (otherwise only after the peer has closed) *)
+  sd_cfg_fail : bool      (* the transport may fail, an ABORT may arrive and the user may call Close at any time
+                             (otherwise the transport closes only after the peer has closed) *)
 }.
 
 Definition sd_is_api (ev : sd_event) : bool :=
-  match ev with SdEvShutdownCall | SdEvWrite _ => true | _ => false end.
+  match ev with SdEvShutdownCall | SdEvWrite _ | SdEvCloseCall => true | _ => false end.
 
 (* is the event enabled in the system state (environment side of the step relation) *)
 Definition sd_enabled (c : sd_cfg) (s : sd_sys) (side : bool) (ev : sd_event) : bool :=
@@ -376,6 +387,8 @@ Definition sd_enabled (c : sd_cfg) (s : sd_sys) (side : bool) (ev : sd_event) : 
   | SdEvAckTimer => sd_ack e =? sd_ackDelay
   | SdEvRtx => (0 <? sd_infl e) && negb (sd_down e)
   | SdEvTransportDown => negb (sd_down e) && (sd_cfg_fail c || sd_down (sd_ep_of s (negb side)))
+  | SdEvRecvAbort => negb (sd_down e) && sd_cfg_fail c     (* forged / peer-initiated ABORT: part of the hostile environment *)
+  | SdEvCloseCall => negb (sd_down e) && sd_cfg_fail c
   | _ => match sd_ev_kind ev with Some k => sd_net_has (sd_net_to s side) k && negb (sd_down e) | None => false end
   end.
 
@@ -403,7 +416,7 @@ Definition sd_ackres_all (infl : Z) : list sd_ackres :=
 
 Definition sd_events_all (e : sd_ep) : list sd_event :=
   [SdEvShutdownCall; SdEvWrite 1; SdEvRecvData false; SdEvRecvData true; SdEvRecvShutdownAck; SdEvRecvShutdownComplete;
-   SdEvRecvInit; SdEvT2; SdEvAckTimer; SdEvRtx; SdEvTransportDown]
+   SdEvRecvInit; SdEvT2; SdEvAckTimer; SdEvRtx; SdEvTransportDown; SdEvRecvAbort; SdEvCloseCall]
   ++ map SdEvRecvSack (sd_ackres_all (sd_infl e)) ++ map SdEvRecvShutdown (sd_ackres_all (sd_infl e)).
 
 (* all labels worth trying in s: every enabled event, every value of [moved] that can be valid.  [rtx] is set only
@@ -445,18 +458,18 @@ Definition sd_lsuccs (s : sd_sys) : list sd_sys :=
   sd_filter_some (map (sd_sys_step sd_cfg_live s) (filter sd_label_live (sd_labels sd_cfg_live s))).
 
 Definition sd_ep0 (pend : Z) : sd_ep :=
-  mkSdEp c_established false false false false false pend 0 sd_ackIdle SdNotCalled false.
+  mkSdEp c_established false false false false false false pend 0 sd_ackIdle SdNotCalled false.
 
 Definition sd_init (pa pb : Z) : sd_sys := mkSdSys (sd_ep0 pa) (sd_ep0 pb) sd_net_empty sd_net_empty.
 
 (* ---------------------------------------------------------------- decidable equality and a hash key *)
 
 Definition sd_retv_code (r : sd_retv) : Z :=
-  match r with SdNotCalled => 0 | SdWaiting => 1 | SdRetNil => 2 | SdRetErr => 3 end.
+  match r with SdNotCalled => 0 | SdWaiting => 1 | SdRetNil => 2 | SdRetErr => 3 | SdRetIncomplete => 4 end.
 
 Definition sd_ep_eqb (x y : sd_ep) : bool :=
   (sd_state x =? sd_state y) && Bool.eqb (sd_wsd x) (sd_wsd y) && Bool.eqb (sd_wsa x) (sd_wsa y) &&
-  Bool.eqb (sd_wsc x) (sd_wsc y) && Bool.eqb (sd_scp x) (sd_scp y) && Bool.eqb (sd_t2 x) (sd_t2 y) &&
+  Bool.eqb (sd_wsc x) (sd_wsc y) && Bool.eqb (sd_scp x) (sd_scp y) && Bool.eqb (sd_done x) (sd_done y) && Bool.eqb (sd_t2 x) (sd_t2 y) &&
   (sd_pend x =? sd_pend y) && (sd_infl x =? sd_infl y) && (sd_ack x =? sd_ack y) &&
   (sd_retv_code (sd_ret x) =? sd_retv_code (sd_ret y)) && Bool.eqb (sd_down x) (sd_down y).
 
@@ -472,13 +485,13 @@ Definition sd_b2z (b : bool) : Z := if b then 1 else 0.
 (* the key only has to spread the states over the buckets; nothing is proved about it *)
 Definition sd_ep_code (e : sd_ep) : Z :=
   (((((((((sd_state e * 2 + sd_b2z (sd_wsd e)) * 2 + sd_b2z (sd_wsa e)) * 2 + sd_b2z (sd_wsc e)) * 2 + sd_b2z (sd_scp e)) * 2
-      + sd_b2z (sd_t2 e)) * 4 + sd_pend e) * 4 + sd_infl e) * 4 + sd_ack e) * 4 + sd_retv_code (sd_ret e)) * 2 + sd_b2z (sd_down e).
+      + sd_b2z (sd_t2 e)) * 4 + sd_pend e) * 4 + sd_infl e) * 4 + sd_ack e) * 8 + sd_retv_code (sd_ret e)) * 4 + 2 * sd_b2z (sd_done e) + sd_b2z (sd_down e).
 
 Definition sd_net_code (n : sd_net) : Z :=
   (((sd_b2z (sd_n_data n) * 2 + sd_b2z (sd_n_sack n)) * 2 + sd_b2z (sd_n_sd n)) * 2 + sd_b2z (sd_n_sa n)) * 2 + sd_b2z (sd_n_sc n).
 
 Definition sd_key (s : sd_sys) : positive :=
-  Z.to_pos (((sd_ep_code (sd_a s) * 1048576 + sd_ep_code (sd_b s)) * 32 + sd_net_code (sd_ab s)) * 32 + sd_net_code (sd_ba s) + 1).
+  Z.to_pos (((sd_ep_code (sd_a s) * 4194304 + sd_ep_code (sd_b s)) * 32 + sd_net_code (sd_ab s)) * 32 + sd_net_code (sd_ba s) + 1).
 
 (* ---------------------------------------------------------------- finite sets of states, worklist closure, ranks *)
 
@@ -600,10 +613,8 @@ Definition sd_reach_set (c : sd_cfg) : sd_set sd_sys :=
 
 (* "a shutdown is in progress or done": the liveness statements are about these states *)
 Definition sd_started (s : sd_sys) : bool :=
-  match sd_ret (sd_a s), sd_ret (sd_b s) with
-  | SdWaiting, _ | SdRetNil, _ | _, SdWaiting | _, SdRetNil => true
-  | _, _ => false
-  end.
+  let st r := match r with SdWaiting | SdRetNil | SdRetIncomplete => true | _ => false end in
+  st (sd_ret (sd_a s)) || st (sd_ret (sd_b s)).
 
 Definition sd_both_closed (s : sd_sys) : bool :=
   (sd_state (sd_a s) =? c_closed) && (sd_state (sd_b s) =? c_closed) && sd_down (sd_a s) && sd_down (sd_b s).
@@ -620,9 +631,13 @@ Definition sd_emit_drained (e : sd_ep) (ev : sd_event) (moved : Z) (rtx : bool) 
   if existsb (fun k => match k with SdShutdown | SdShutdownAck => true | _ => false end) out
   then negb (sd_has_data e2) else true.
 
-(* Shutdown returned nil only with nothing left pending or in flight at the caller *)
+(* Shutdown returned nil only after the sequence completed, with nothing left pending or in flight at the caller;
+   as long as the environment does not close the association under it, it never returns ErrShutdownIncomplete *)
 Definition sd_ret_nil_drained (e : sd_ep) : bool :=
-  match sd_ret e with SdRetNil => negb (sd_has_data e) && (sd_state e =? c_closed) | _ => true end.
+  match sd_ret e with
+  | SdRetNil => negb (sd_has_data e) && (sd_state e =? c_closed) && sd_done e
+  | _ => true
+  end.
 
 Definition sd_sys_safe (s : sd_sys) : bool := sd_ret_nil_drained (sd_a s) && sd_ret_nil_drained (sd_b s).
 
